@@ -709,11 +709,17 @@ func (a *A) ruleNullNeverRenderedForCompare() int {
 				}
 				n++
 				reach := reachUnder(fn, sp, func(v ssa.Value) Tri {
-					if bo, ok := v.(*ssa.BinOp); ok && (bo.Op == token.EQL || bo.Op == token.NEQ) && isNilConst(bo.Y) && bo.X == ssa.Value(p) {
-						if bo.Op == token.EQL {
-							return T
+					// a nil test of the operand - or of a local that is the operand or nil (`if isTypedNil(left) { left = nil }`)
+					if x, nilWhenTrue, ok := nilTest(v); ok {
+						all := true
+						for _, l := range phiLeaves(x) {
+							if l != ssa.Value(p) && !isNilConst(l) {
+								all = false
+							}
 						}
-						return F
+						if all {
+							return tri(nilWhenTrue)
+						}
 					}
 					return U
 				})
